@@ -183,7 +183,7 @@ func runC01(r *Run) {
 		n := 1 + t.Intn(8, "traj-len")
 		script = &scriptLimit{cur: initial}
 		for i := 0; i < n; i++ {
-			v := []int{1, 2, 3, 0, -3, 4, 6, initial, 40}[t.Intn(9, "traj")]
+			v := []int{1, 2, 3, 0, -3, 4, 6, initial, 40, 65536, 70000}[t.Intn(11, "traj")] // (also limits beyond 16 bits)
 			script.vals = append(script.vals, v)
 		}
 		lim = script
